@@ -115,6 +115,20 @@ package rules
 //     ObjectEntityWatcher, the event channel, the snapshot channel (also inside a sub-struct), the
 //     TrafficController mutex (Mutex or RWMutex) and namespaces map.
 //
+// Fourth robustness set (/verif/preserving/C20/r13..r16 → all exit 0; detection re-checked with 13 mutants on
+// top of them, script /tmp/vw/C20/out/mutants11.py):
+//   - a bookkeeping map bound to a local alias (`registered := or.entities`) or passed to a same-package
+//     function is not an escape as long as every use of the alias / parameter is itself a non-escaping use;
+//     the diff rules see the registry map through such an alias;
+//   - the lifecycle step may be a function literal handed to a same-package recovering runner
+//     (e.withRecovery("Init", func() {…})): the enclosing function is judged as the wrapper with the
+//     runner and the bound literal interpreted in place;
+//   - RawConfigTrafficController may pick the TrafficController verb from a table of bound method values:
+//     the table's literals are read (one sort per literal, built under the matching kind test);
+//   - the per-watcher loops may be callbacks of a same-package iterator (range over its map parameter calling
+//     its func parameter with key and value): same three obligations on the literals and the call order;
+//   - a live-map lookup may go through a same-package accessor (takeBusinessController / GetBusinessController).
+//
 // Known not to be caught (not claimed): TrafficController.Create* for an already existing name;
 // dropping the watcher.filter test; Update loop before Create loop; anything inside a kind's own
 // Init/Inherit/Close.
@@ -424,6 +438,23 @@ func c20Lookups(f *flow.Func, root ast.Node) []*c20Lookup {
 			l.m, l.key, l.op = r.X, r.Index, "index"
 		case *ast.CallExpr:
 			op, recv := c20SyncMapOp(f, r)
+			if op == "" && len(as.Lhs) == 2 && len(r.Args) == 1 {
+				// an accessor in front of the live map: entity, ok := s.takeBusinessController(name)
+				// (a same-package function with exactly one Load/LoadAndDelete, two results)
+				if fo, ok := f.Callee(r).(*types.Func); ok && fo.Pkg() == f.Pkg.Types {
+					if hfd := declOf(f.Pkg, fo); hfd != nil && hfd != root && hfd.Type.Results != nil && hfd.Type.Results.NumFields() == 2 {
+						var inner []*c20Lookup
+						for _, il := range c20Lookups(flow.NewFunc(f.Pkg, hfd), hfd.Body) {
+							if il.op == "Load" || il.op == "LoadAndDelete" {
+								inner = append(inner, il)
+							}
+						}
+						if len(inner) == 1 {
+							op, recv = inner[0].op, inner[0].m
+						}
+					}
+				}
+			}
 			if (op != "Load" && op != "LoadAndDelete") || len(r.Args) != 1 || len(as.Lhs) != 2 {
 				return true
 			}
@@ -572,6 +603,23 @@ func c20Recovery(c *core.Ctx) {
 					continue
 				}
 			}
+			// (a') the step is a function literal handed to a same-package runner that recovers
+			// (e.withRecovery("Init", func() { … instance.Init(…) … })): the enclosing function is
+			// the wrapper, the runner is interpreted in place with the literal bound to its parameter
+			if inLit && !inLoop {
+				if runner := c20RunnerOf(f, fd, pm, call); runner != nil {
+					if w == nil {
+						w = &wrapper{pkg: pkg, fd: fd, helpers: map[*types.Func]bool{}}
+						wrappers = append(wrappers, w)
+					}
+					if w.helpers == nil {
+						w.helpers = map[*types.Func]bool{}
+					}
+					w.helpers[runner] = true
+					w.sites = append(w.sites, call)
+					continue
+				}
+			}
 			// (a) candidate wrapper: not in a loop, not in a function literal
 			switch {
 			case inLit:
@@ -602,9 +650,10 @@ func c20Recovery(c *core.Ctx) {
 		const evCb, evCb2 = "ev:callback", "ev:callback-twice"
 		const evRecDefer, evOpaqueDefer = "ev:recovering-defer", "ev:opaque-defer"
 		res := analyze(c, f, flow.Config{
-			Inline:   inline,
-			NoHavoc:  true,
-			MayPanic: func(call *ast.CallExpr, callee types.Object) bool { return isSite[call] },
+			Inline:         inline,
+			InlineClosures: inline != nil,
+			NoHavoc:        true,
+			MayPanic:       func(call *ast.CallExpr, callee types.Object) bool { return isSite[call] },
 			OnNode: func(st *flow.State, n ast.Node) {
 				// `defer e.recoverFrom("Init")`: a deferred named function that calls recover()
 				// itself recovers exactly like a deferred literal (the engine only interprets literals)
@@ -1029,4 +1078,43 @@ func c20TCNamespacesField(c *core.Ctx) *types.Var {
 		m, ok := t.Underlying().(*types.Map)
 		return ok && c20NamedIs(m.Elem(), Mod+c20tc, "Namespace")
 	})
+}
+
+// c20RunnerOf: site sits in a function literal that is directly an argument of a call — outside
+// loops and other literals of fd — to a same-package function; returns that function.
+func c20RunnerOf(f *flow.Func, fd *ast.FuncDecl, pm map[ast.Node]ast.Node, site *ast.CallExpr) *types.Func {
+	var lit *ast.FuncLit
+	for p := pm[site]; p != nil; p = pm[p] {
+		if l, ok := p.(*ast.FuncLit); ok {
+			if lit != nil {
+				return nil // nested literals
+			}
+			lit = l
+		}
+	}
+	if lit == nil {
+		return nil
+	}
+	// no loop between the literal's body and the site
+	if len(enclosingLoops(lit.Body, site)) > 0 {
+		return nil
+	}
+	call, ok := pm[lit].(*ast.CallExpr)
+	if !ok {
+		return nil
+	}
+	isArg := false
+	for _, a := range call.Args {
+		if a == ast.Expr(lit) {
+			isArg = true
+		}
+	}
+	if !isArg || len(enclosingLoops(fd.Body, call)) > 0 {
+		return nil
+	}
+	fo, ok := f.Callee(call).(*types.Func)
+	if !ok || fo.Pkg() != f.Pkg.Types || declOf(f.Pkg, fo) == nil {
+		return nil
+	}
+	return fo
 }
